@@ -282,8 +282,16 @@ def decode (c : Ctx) (tv : Bytes) : Option (Ty × Bytes × Ctx) :=
   | (c', some (t, rest)) => some (t, rest, c')
   | (_, none) => none
 
-/-- `LookupByValue`.  The caller's slice is stored as the type's serialized value (the Go code
-    does `c.toValue[typ] = tv` without copying or canonicalising) and as a new `toType` key.
+/-- the last critical section of `LookupByValue`:
+    `if _, ok := c.toValue[typ]; !ok { c.toValue[typ] = EncodeTypeValue(typ) }; c.toType[string(tv)] = typ`
+    (the caller's bytes become a new key, never the type's stored value) -/
+def storeByValue (c : Ctx) (tv : Bytes) (t : Ty) : Ctx :=
+  { c with
+    toValue := if (c.toValue.lookup t).isSome then c.toValue else (t, encodeTV t) :: c.toValue,
+    toType := (tv, t) :: c.toType }
+
+/-- `LookupByValue`: probe `toType`, else decode (outside the mutex: a sequence of atomic
+    `Lookup*` steps) and remember the bytes as a further key of the decoded type.
     The effects of a failing decode stay in the context. -/
 def lookupByValue (c : Ctx) (tv : Bytes) : Option Ty × Ctx :=
   match c.toType.lookup tv with
@@ -291,7 +299,7 @@ def lookupByValue (c : Ctx) (tv : Bytes) : Option Ty × Ctx :=
   | none =>
     match c.decodeC tv with
     | (c', none) => (none, c')
-    | (c', some (t, _)) => (some t, { c' with toValue := (t, tv) :: c'.toValue, toType := (tv, t) :: c'.toType })
+    | (c', some (t, _)) => (some t, c'.storeByValue tv t)
 
 /-- `TranslateType` -/
 def translate (c : Ctx) (ext : Ty) : Option Ty × Ctx := c.lookupByValue (encodeTV ext)
